@@ -7,6 +7,7 @@ CONSTANTS
   Elem = {"e"}
   AsBuilt = {}
   Kinds = {"lww", "hash"}
+  CausalModes = {FALSE}
   MaxSteps = 5
 CONSTRAINT StepBound
 INVARIANTS Associative
